@@ -12,4 +12,9 @@ RecPkg == [t \in RecTypes |-> "ra.v1"]
 XpTypes == {"A", "C", "D"}
 XpChild == [t \in XpTypes |-> IF t = "A" THEN <<"D">> ELSE <<>>]
 XpPkg == [t \in XpTypes |-> CASE t = "A" -> "xa.v1" [] t = "D" -> "xb.v1" [] OTHER -> "xc.v1"]
+NoneInvalid == {}
+InvTypes == {"L", "H", "G"}
+InvChild == [t \in InvTypes |-> CASE t = "L" -> <<"L">> [] t = "H" -> <<"L">> [] OTHER -> <<>>]
+InvPkg == [t \in InvTypes |-> "ia.v1"]
+InvInvalid == {"L"}
 =============================================================================
